@@ -17,6 +17,12 @@
 (* chain (K = 1) continues on the parent stream after those draws, as      *)
 (* run() passes the parent generator itself; spawned children (K > 1) do   *)
 (* not depend on how far the parent stream was consumed.                   *)
+(* Worker processes carry process-global memo tables: a chain that starts   *)
+(* in a process which already executed another chain sees them warm.  The  *)
+(* executor gives a queued chain to any free worker, so this can happen    *)
+(* even with as many workers as chains.  ColdStartPerChain (the chain      *)
+(* clears the tables when it starts) makes the chain's result independent  *)
+(* of that; without it such a chain is "tainted" (finding F16).            *)
 (* Deviations: SharedStream (all chains draw from the parent generator),   *)
 (* StreamPerWorker (streams assigned per worker slot, W < K workers),      *)
 (* LazyLoad (the loader's draws happen concurrently with the chains).      *)
@@ -26,7 +32,8 @@ CONSTANTS K,             \* chains 0..K-1
           Steps,         \* draws per chain
           W,             \* worker slots (processes that can run at once)
           PreDraws,      \* draws the loader takes from the parent generator before the chains exist
-          SharedStream, StreamPerWorker, LazyLoad
+          SharedStream, StreamPerWorker, LazyLoad,
+          ColdStartPerChain  \* TRUE: run_phyclone_chain clears the process-global memo tables first (as fixed); FALSE: deviation
 Chain == 0..(K - 1)
 Main == K + 100        \* identifier of the parent stream
 VARIABLES pos,       \* per stream: next position
@@ -34,33 +41,41 @@ VARIABLES pos,       \* per stream: next position
           running,   \* set of chains currently on a worker
           done,      \* sequence of chain numbers in completion order
           results,   \* function chain -> trace, filled at completion
-          loaded     \* number of loader draws taken so far
-vars == <<pos, trace, running, done, results, loaded>>
+          loaded,    \* number of loader draws taken so far
+          slot,      \* chain -> worker process executing it (0 = none yet)
+          used,      \* worker processes that have executed a chain
+          tainted    \* chains that started on warm process-global tables
+vars == <<pos, trace, running, done, results, loaded, slot, used, tainted>>
 StreamOf(c) == IF SharedStream \/ K = 1 THEN Main ELSE IF StreamPerWorker THEN c % W ELSE c
 Streams == {StreamOf(c) : c \in Chain} \cup {Main}
 Init == /\ pos = [s \in Streams |-> 1] /\ trace = [c \in Chain |-> <<>>]
         /\ running = {} /\ done = <<>> /\ results = << >> /\ loaded = 0
+        /\ slot = [c \in Chain |-> 0] /\ used = {} /\ tainted = {}
 \* load_data: the loader's draws come first (unless LazyLoad)
 Load == /\ loaded < PreDraws
         /\ pos' = [pos EXCEPT ![Main] = @ + 1] /\ loaded' = loaded + 1
-        /\ UNCHANGED <<trace, running, done, results>>
+        /\ UNCHANGED <<trace, running, done, results, slot, used, tainted>>
 Loaded == LazyLoad \/ loaded = PreDraws
 Finished == {done[j] : j \in 1..Len(done)}
 Start(c) == /\ Loaded /\ c \notin running /\ c \notin Finished /\ trace[c] = <<>> /\ Cardinality(running) < W
+            /\ \E w \in 1..W \ {slot[d] : d \in running} :                  \* any free worker process takes the chain
+                   /\ slot' = [slot EXCEPT ![c] = w]
+                   /\ used' = used \cup {w}
+                   /\ tainted' = (IF w \in used /\ ~ColdStartPerChain THEN tainted \cup {c} ELSE tainted)
             /\ running' = running \cup {c} /\ UNCHANGED <<pos, trace, done, results, loaded>>
 Step(c) == /\ c \in running /\ Len(trace[c]) < Steps
            /\ LET s == StreamOf(c) IN
                 /\ trace' = [trace EXCEPT ![c] = Append(@, <<s, pos[s]>>)]
                 /\ pos' = [pos EXCEPT ![s] = @ + 1]
-           /\ UNCHANGED <<running, done, results, loaded>>
+           /\ UNCHANGED <<running, done, results, loaded, slot, used, tainted>>
 Finish(c) == /\ c \in running /\ Len(trace[c]) = Steps
              /\ running' = running \ {c} /\ done' = Append(done, c)
              /\ results' = (c :> trace[c]) @@ results
-             /\ UNCHANGED <<pos, trace, loaded>>
+             /\ UNCHANGED <<pos, trace, loaded, slot, used, tainted>>
 Next == Load \/ \E c \in Chain : Start(c) \/ Step(c) \/ Finish(c)
 AllDone == Len(done) = K /\ loaded = PreDraws
 Expected(c) == IF K = 1 THEN [j \in 1..Steps |-> <<Main, PreDraws + j>>] ELSE [j \in 1..Steps |-> <<c, j>>]
-ScheduleIndependence == AllDone => \A c \in Chain : results[c] = Expected(c)
+ScheduleIndependence == AllDone => \A c \in Chain : results[c] = Expected(c) /\ c \notin tainted
 KeyedByChain == \A c \in DOMAIN results : c \in Chain /\ Len(results[c]) = Steps
 NoSharedDraw == \A c1, c2 \in Chain : c1 # c2 => \A i \in 1..Len(trace[c1]), j \in 1..Len(trace[c2]) : trace[c1][i] # trace[c2][j]
 =============================================================================
